@@ -46,6 +46,16 @@ Definition act14 (prev : option Z) (a : action) (w h : Z) : option s14 :=
   | AQuitLoop _ => Some {| a_prev := prev; a_mode := MQuitEv w h |}
   | ASwitch _ _ _ _ | ARaiseSW _ _ _ => Some {| a_prev := prev; a_mode := MPend PSwitch |}
   | AOther => Some {| a_prev := prev; a_mode := MPend POther |}
+  | ADirect _ _ _ => None
+  end.
+
+(* ... an action that does not raise (nothing, or a direct the_loop.switch)
+   leaves things as they are: after a direct switch the frame goes on with the
+   processors of the world it began with *)
+Definition act14' (s : s14) (a : action) (w h : Z) : option s14 :=
+  match a with
+  | ANormal | ADirect _ _ _ => Some s
+  | _ => act14 (a_prev s) a w h
   end.
 
 Definition step14 (nps : list nat) (s : s14) (e : entry) : option s14 :=
@@ -56,19 +66,21 @@ Definition step14 (nps : list nat) (s : s14) (e : entry) : option s14 :=
       | EProc w' p d =>
           if (w' =? w) && Nat.eqb p k && (d =? dt)
           then Some {| a_prev := prev; a_mode := MFrame w h dt (S k) |} else None
-      | EPoke _ _ _ | EEv _ _ => Some s
+      | EPoke _ _ _ | EEv _ _ | ELoad _ _ => Some s
       | EAct o a w' h' =>
-          if Nat.ltb 0 k && negb (is_callback o) && (w' =? w) && (h' =? h)
-          then act14 prev a w h else None
+          if Nat.ltb 0 k then
+            if is_callback o then act14' s a w' h'     (* a callback run by a direct switch *)
+            else if (w' =? w) && (h' =? h)
+                 then match a with ANormal => None | _ => act14' s a w h end
+                 else None
+          else None
       | _ => if Nat.eqb k (np_of nps h) then clock14 prev e else None
       end
   | MPend p =>
       match e with
       | ELoad _ _ | EEv _ _ => Some s
       | EAct o a w h =>
-          if is_callback o
-          then match a with ANormal => Some s | _ => act14 prev a w h end
-          else None
+          if is_callback o then act14' s a w h else None
       | EClock _ _ _ | EClockEnd _ _ _ =>
           match p with PSwitch => clock14 prev e | _ => None end
       | EEnd out w' h' =>
